@@ -1164,18 +1164,19 @@ func genIllTyped(rng *rand.Rand) *c13Case {
 	return c
 }
 
-// ---------- corpus: the witnesses of the _refuted lemmas and other fixed cases ----------
+// ---------- corpus: the witnesses of the _refuted lemmas (the two open findings and the
+// regression witnesses of the five repaired defects) and other fixed cases ----------
 
 func c13Corpus() []*c13Case {
 	mk := func(origin string, calls ...cCall) *c13Case { return &c13Case{Origin: origin, Calls: calls} }
 	call := func(name string, args ...cVal) cCall { return cCall{Name: name, Args: args} }
 	return []*c13Case{
-		mk("C13_rand_nan_refuted", call("rand", vNum(math.NaN()))),
-		mk("C13_repr_keys_refuted", call("repr", vMap(tyNum, []string{"1a", " b", "ok_1", "", "a b"}, []cVal{vNum(1), vNum(2), vNum(3), vNum(4), vNum(5)}))),
-		mk("C13_index_bytes_refuted", call("index", vStr("äb"), vStr("b"))),
-		mk("printf-verb-mismatch", call("sprintf", vStr("%s"), vNum(1))),
+		mk("C13_rand_nan_before_fix_refuted (regression, 30a294b)", call("rand", vNum(math.NaN()))),
+		mk("C13_repr_keys_before_fix_refuted (regression, 09cb4c8)", call("repr", vMap(tyNum, []string{"1a", " b", "ok_1", "", "a b"}, []cVal{vNum(1), vNum(2), vNum(3), vNum(4), vNum(5)}))),
+		mk("C13_index_bytes_before_fix_refuted (regression, 79c1bbb)", call("index", vStr("äb"), vStr("b"))),
+		mk("C13_printf_mismatch_refuted", call("sprintf", vStr("%s"), vNum(1))),
 		mk("C13_str2bool_doc_literals_refuted", call("str2bool", vStr("t"))),
-		mk("C13_str2num_failure_zero_refuted", call("str2num", vStr("1e999"))),
+		mk("C13_str2num_before_fix_refuted (regression, e40074a)", call("str2num", vStr("1e999"))),
 		mk("split-empty", call("split", vStr(""), vStr("")), call("split", vStr(""), vStr(",")), call("split", vStr("äbc"), vStr(""))),
 		mk("err-reset", call("str2num", vStr("x")), call("str2bool", vStr("true")), call("str2bool", vStr("no")), call("len", vStr("abc")), call("str2num", vStr("1"))),
 		mk("rand-bounds", call("rand", vNum(1)), call("rand", vNum(2147483647)), call("rand", vNum(1.5))),
